@@ -1,6 +1,8 @@
 """C16 -- bit, number and DNA conversions are exact inverses at any length."""
 import numpy as np
 
+import gen
+
 import dsw
 from core import Case, enc_call, digits, guard, s2c, c2s
 
@@ -127,7 +129,7 @@ def build(stream, p):
         def run():
             # a bit sequence is a list of ints or (what encode passes) a NumPy integer array
             arg = bits if len(bits) % 3 == 0 else np.array(bits, dtype=[int, np.int64, np.uint8, np.int8][len(bits) % 4])
-            ds = dsw.bit_to_number(arg, is_string=True)
+            ds = gen.api("bit_to_number", bit_array=arg, is_string=True)
             di = dsw.bit_to_number(arg, is_string=False)
             return ds, di, twice(dsw.number_to_bit, ds, len(bits)), twice(dsw.number_to_bit, di, len(bits))
         call = None
@@ -189,7 +191,7 @@ def build(stream, p):
     if stream in ("render_dna", "toowide_dna"):
         as_str = (n % 2 == 0)
         call = enc_call(11, digits(str(n)), L) if as_str else enc_call(12, n, L)
-        impl = lambda: guard(lambda: dsw.number_to_dna(str(n) if as_str else n, L), lambda r: [s2c(r)])
+        impl = lambda: guard(lambda: gen.api("number_to_dna", decimal_number=str(n) if as_str else n, dna_length=L), lambda r: [s2c(r)])
 
         def oracle(ans, raw):
             if stream != "render_dna":
@@ -208,7 +210,7 @@ def build(stream, p):
     s = p["dna"]
     as_str = len(s) % 2 == 0
     call = enc_call(9 if as_str else 10, s2c(s))
-    impl = lambda: guard(lambda: dsw.dna_to_number(s, is_string=as_str), lambda r: [digits(r)] if as_str else [[r]])
+    impl = lambda: guard(lambda: gen.api("dna_to_number", dna_sequence=s, is_string=as_str), lambda r: [digits(r)] if as_str else [[r]])
 
     def oracle(ans, raw):
         if not isinstance(raw, ValueError):
